@@ -1,0 +1,25 @@
+//go:build verif
+
+package middleware
+
+// Contracts checked by /verif/goavc (comment-only file, built only with -tags verif).
+
+//@ macro ridKey() = iface(string, middleware.RequestIDKey)
+//@ macro ridOf(c) = unboxStr(ctxVal(c, ridKey()).val)
+
+//@ func MetadataValue
+//@   ensures first: len(md[lowerS(key)]) > 0 ==> result == md[lowerS(key)][0]
+//@   ensures none: len(md[lowerS(key)]) == 0 ==> result == ""
+//@   modifies nothing
+
+//@ func generateRequestID
+//@   property C19
+//@   requires ctx != nil && opts != nil
+//@   requires ctxVal(ctx, ridKey()) == nil || typeIs(ctxVal(ctx, ridKey()), string)
+//@   let md0 = ptr(metadata.MD, mdOf(ctx))
+//@   let inV = ite(mdHas(ctx) && len(old(md0[lowerS("x-request-id")])) > 0, old(md0[lowerS("x-request-id")][0]), "")
+//@   let md1 = ptr(metadata.MD, mdOf(result))
+//@   ensures* nonempty: typeIs(ctxVal(result, ridKey()), string) && ridOf(result) != ""
+//@   ensures* trusted: opts.useRequestID && inV != "" ==> ridOf(result) == ite(opts.requestIDLimit > 0 && len(inV) > opts.requestIDLimit, substr(inV, 0, opts.requestIDLimit), inV)
+//@   ensures* untrusted: !opts.useRequestID && ctxVal(ctx, ridKey()) == nil ==> len(ridOf(result)) == 8
+//@   ensures* metadata: mdHas(result) && len(md1[lowerS("x-request-id")]) == 1 && md1[lowerS("x-request-id")][0] == ridOf(result)
